@@ -10,25 +10,25 @@ TRUST = "SQLite, database/sql, Go runtime and otto trusted; fixed small alphabet
 SCHED = "stateless DFS over thread interleavings of the real code under a controlled scheduler (deviation-bounded)"
 
 CLAIMED = {
-    "C01": ("SEQ", "Every operation of the ~110-instance KV/xattr/subdoc alphabet is applied in every canonical document state reachable within the depth bound (quick: depth 3 in memory; thorough: depth 4 in memory + depth 3 on disk), through two handles; after each one every read API on both keys is compared with the stored row and with the specification's post-state, and an error must leave the row byte-identical.", "2.3, 3/C01"),
-    "C02": ("SEQ+SCHED", "(a) same BFS: every CAS-conditional entry point x {0, current, stale} from every reachable state: succeeds iff the CAS is current, a refusal changes nothing. (b) scheduler DFS: all 36 pairs of conditional writers that both read the same version, plus retry loops against blind writers, on memory/disk x 1/2 handles, every schedule with <=2 (thorough 3) deviations: outcomes must equal a sequential run of the same implementation and at most one same-CAS writer wins.", "3/C02"),
+    "C01": ("SEQ", "Every operation of the ~110-instance KV/xattr/subdoc alphabet is applied in every canonical document state reachable within the depth bound (quick: depth 3 in memory; thorough: depth 4 in memory + depth 3 on disk), through two handles; after each one every read API on both keys is compared with the stored row and with the specification's post-state, and an error must leave the row byte-identical. On disk every transition ends with a reopen differential: all handles closed, bucket reopened, every row, mark, read and backfill compared with the observation before the close.", "2.3, 3/C01"),
+    "C02": ("SEQ+SCHED", "(a) same BFS: every CAS-conditional entry point x {0, current, stale} from every reachable state: succeeds iff the CAS is current, a refusal changes nothing. (b) scheduler DFS: all 36 pairs of conditional writers that both read the same version, plus retry loops against blind writers, on memory/disk x 1/2 handles, every schedule with <=2 (thorough 3) deviations: outcomes must equal a sequential run of the same implementation and at most one same-CAS writer wins. Plus the pairs of the pairwise matrix that contain a CAS-carrying write (each preceded by its own read), from a live / tombstone / absent key.", "3/C02"),
     "C03": ("SCHED", "Eight three-thread scenarios (Incr/Get, Update/Update/Set, Add/Add/Delete, WriteUpdateWithXattrs counters, Set/Remove/GetWithXattrs, sub-document writers, Touch/PreserveExpiry/GetExpiry, three handles) x memory/disk x handles: every schedule within the deviation bound must produce per-operation results and a final state that some sequential order of the same operations (respecting real-time order) produces on the same implementation. Plus the pairwise matrix: every unordered pair of 29 client operations on one key as two threads, from a live / tombstone / absent key, memory (1 handle) and disk (2 handles), one deviation bound lower, under the same oracle and the universal feed-order, no-gap, revision-count and no-panic/deadlock oracles.", "2.7, 3/C03"),
-    "C04": ("SEQ+SCHED+CRASH", "(a) all 9^6 (thorough 9^7) clock scripts against the HybridLogicalClock; (b) clock world: one operation per write entry point x clock {still,+1s,-1h} x two buckets, BFS depth 3/4, with process restarts of the on-disk bucket (fresh clock, wall clock set back): every CAS above everything handed out before, equal to the CAS read back and on the feed; (c) scheduler DFS of concurrent writers on two buckets/handles: CAS distinct, real-time order = CAS order, stored CAS = max issued per key; (d) the C10 crash runs reopen with an earlier wall clock.", "3/C04"),
-    "C05": ("SEQ", "Same BFS as C01; after every transition all observers of tombstone-ness (Get/GetRaw/Exists/GetWithXattrs, live event opcode, Dump-backfill opcode and body, insert-style operations applied next by the BFS) must agree with 'has a body', plus the explicit xattr/expiry clauses for deletes, resurrections and PurgeTombstones.", "3/C05"),
+    "C04": ("SEQ+SCHED+CRASH", "(a) all 9^6 (thorough 9^7) clock scripts against the HybridLogicalClock; (b) clock world: one operation per write entry point x clock {still,+1s,-1h} x two buckets, BFS depth 3/4, with process restarts of the on-disk bucket (fresh clock, wall clock set back): every CAS above everything handed out before, equal to the CAS read back and on the feed; (c) scheduler DFS of concurrent writers on two buckets/handles: CAS distinct, real-time order = CAS order, stored CAS = max issued per key; (d) the C10 crash runs reopen with an earlier wall clock. Plus a bucket reopened with a stored mark above / below a fresh clock racing a writer on another bucket.", "3/C04"),
+    "C05": ("SEQ", "Same BFS as C01; after every transition all observers of tombstone-ness (Get/GetRaw/Exists/GetWithXattrs, live event opcode, Dump-backfill opcode and body, insert-style operations applied next by the BFS) must agree with 'has a body', plus the explicit xattr/expiry clauses for deletes, resurrections and PurgeTombstones. Bucket-level operations go through a handle that has opened no collection.", "3/C05"),
     "C06": ("SEQ", "Same BFS; every insert-style entry point is applied from every reachable state (so after every delete/re-create history within the bound) and must succeed iff the key has no body, leaving a refused document byte-identical.", "3/C06"),
     "C07": ("SEQ", "Same BFS; every xattr entry point with set/delete subsets and failure causes (stale CAS, missing xattr, oversize, bad JSON) from every reachable xattr-bearing state; full read-back diff: only named xattrs change, body/expiry/other xattrs byte-identical, errors change nothing, CAS/CRC32c macros equal the new CAS / stored body checksum.", "3/C07"),
     "C08": ("SEQ+SCHED", "(a) same BFS with two live feeds (one per handle, one per feed API): exactly one faithful event per success on each feed (all fields against the post-state), none per failure. (b) scheduler DFS of 2-3 writers on different handles with a full and a KeysOnly feed: per feed strictly increasing CAS and the multiset of successful mutations. Plus the pairwise matrix: every unordered pair of 29 client operations on one key as two threads, from a live / tombstone / absent key, memory (1 handle) and disk (2 handles), one deviation bound lower, under the same oracle and the universal feed-order, no-gap, revision-count and no-panic/deadlock oracles.", "3/C08"),
     "C09": ("SEQ+SCHED", "(a) same BFS: at every state Dump feeds from CAS 0 and from four other start CAS values: framed by markers, ascending, exactly the documents with CAS >= s, each event equal to the document's state. (b) scheduler DFS of StartDCPFeed(backfill+live) against 1-2 writers: every key's final version delivered by backfill or live. Plus the pairwise matrix: every unordered pair of 29 client operations on one key as two threads, from a live / tombstone / absent key, memory (1 handle) and disk (2 handles), one deviation bound lower, under the same oracle and the universal feed-order, no-gap, revision-count and no-panic/deadlock oracles.", "3/C09"),
     "C10": ("CRASH", "Every write-class system call (pwrite/write/ftruncate/fsync/fdatasync/unlink/rename under the bucket directory) of four write histories of 9-13 calls (640 crash points) is a crash point: the child is SIGKILLed there, a fresh process reopens the directory, and its complete contents must equal the state recorded after the last acknowledged call or after the interrupted one; pending expiry still fires; first new CAS above all stored.", "2.5, 3/C10"),
-    "C11": ("SEQ", "(a) KV BFS with same-key witnesses in another collection and another bucket (rows, every read, feeds) that must stay byte-identical; (b) isolation world: 28 operations on the subject collection incl. Touch, expiry, purge, design documents, views, queries, CreateIndex, drop and re-create, BFS depth 3/4 (disk 2/3): witness rows, reads, view and query results, design documents unchanged; dropped collection leaves nothing; re-created one is empty; (c) views world with writes to another collection: a discrepancy that disappears when those writes are removed from the path is interference.", "3/C11"),
-    "C12": ("SEQ", "Views world: 21-25 write/ddoc/query operations (incl. SetWithMeta with CAS above/below, purge, drop+re-create, ddoc replaced through the other handle), BFS depth 4 in memory (disk 2/3), queries placed only where the path puts them; after every transition every view x 6 parameter sets is compared with a Go evaluation of the map functions over the stored rows (JSON collation order) and with a freshly created identical view.", "3/C12"),
-    "C13": ("SEQ+SCHED", "(a) registry world: OpenBucket x 5 name/URL combinations x 3 modes, Close, repeated Close, CloseAndDelete over up to four handles, BFS depth 4/6; after every step a read+write probe on every handle, GetBucketNames, reference counts, directories. (b) scheduler DFS of 2-3 threads opening/probing/closing an existing on-disk bucket.", "3/C13"),
-    "C14": ("SEQ", "Expiry world on the virtual clock: six expiry-carrying entry points x {0,+10,+30,absolute}, touches, PreserveExpiry paths, deletes on three keys in two collections, clock advances 5/15/40 s, reopen; BFS depth 4/5 (disk 3/4); readable with the right GetExpiry before T, tombstone + deletion event without any client call after T+5 s.", "3/C14"),
+    "C11": ("SEQ", "(a) KV BFS with same-key witnesses in another collection and another bucket (rows, every read, feeds) that must stay byte-identical; (b) isolation world: 28 operations on the subject collection incl. Touch, expiry, purge, design documents, views, queries, CreateIndex, drop and re-create, BFS depth 3/4 (disk 2/3): witness rows, reads, view and query results, design documents unchanged; dropped collection leaves nothing; re-created one is empty; (c) views world with writes to another collection: a discrepancy that disappears when those writes are removed from the path is interference. The isolation world reaches the subject collection through three handles that have cached different things (drop / re-create / lookup / CreateDataStore / purge through each).", "3/C11"),
+    "C12": ("SEQ+SCHED", "Views world: 21-25 write/ddoc/query operations (incl. SetWithMeta with CAS above/below, purge, drop+re-create, ddoc replaced through the other handle), BFS depth 4 in memory (disk 2/3), queries placed only where the path puts them; after every transition every view x 6 parameter sets is compared with a Go evaluation of the map functions over the stored rows (JSON collation order) and with a freshly created identical view. Plus scheduler DFS of a writer against a writer followed by a non-stale query (and three-thread variants): View results linearizable, and at quiescence the non-stale view equals the map function over the stored rows.", "3/C12"),
+    "C13": ("SEQ+SCHED", "(a) registry world: OpenBucket x 5 name/URL combinations x 3 modes, Close, repeated Close, CloseAndDelete over up to four handles, BFS depth 4/6; after every step a read+write probe on every handle, GetBucketNames, reference counts, directories. (b) scheduler DFS of 2-3 threads opening/probing/closing an existing on-disk bucket. (c) the on-disk KV BFS's reopen differential (see C01): data intact after the last handle closed.", "3/C13"),
+    "C14": ("SEQ+SCHED", "Expiry world on the virtual clock: six expiry-carrying entry points x {0,+10,+30,absolute}, touches, PreserveExpiry paths, deletes on three keys in two collections, clock advances 5/15/40 s, reopen; BFS depth 4/5 (disk 3/4); readable with the right GetExpiry before T, tombstone + deletion event without any client call after T+5 s. The world also drops and re-creates a collection and (on disk) reopens. Plus scheduler DFS of writers / touches with different deadlines against each other and against a running sweep: after the race the virtual clock is stepped forward and no document may outlive its stored expiry by more than 5 s.", "3/C14"),
     "C15": ("SCHED", "Checkpointed feed stopped and resumed (terminator / finished dump) while 2 writers run, then a final resumed dump; every schedule within the deviation bound: every key's final version is delivered by some run, checkpoint never ahead of what was delivered.", "3/C15"),
     "C16": ("SEQ+SCHED", "(a) feed world: feeds started through either handle / either API, live, dump, and dump held mid-delivery; terminator closes, collection drop, handle close, bucket deletion; BFS depth 4/5 on disk and in memory; done channels exactly when they must, no callback after the end, running feeds receive a probe write through every open handle. (b) scheduler DFS of the stop actions against a writer.", "3/C16"),
     "C17": ("SEQ+SCHED", "Same BFS as C01: stored revision, $document.revid, $document, live and backfill RevNo all = previous + 1; plus scheduler DFS of Update/WriteSubDoc/WriteUpdateWithXattrs racing with Touch/SetXattrs: final revision = number of successful mutations. Plus the pairwise matrix: every unordered pair of 29 client operations on one key as two threads, from a live / tombstone / absent key, memory (1 handle) and disk (2 handles), one deviation bound lower, under the same oracle and the universal feed-order, no-gap, revision-count and no-panic/deadlock oracles.", "3/C17"),
-    "C18": ("SEQ+SCHED", "Same BFS (sub-document operations over object, raw, absent, tombstone documents, CAS tokens) against a JSON-editing specification; scheduler DFS of concurrent sub-document writers and a blind Set: outcomes equal a sequential run.", "3/C18"),
-    "C19": ("SEQ", "Queries world: 21 write operations over two collections (incl. nil/empty bodies, tombstones with xattrs, resurrections, WithMeta), BFS depth 3/4 in memory (pre-recorded iterator) and on disk (streaming iterator); five queries per collection compared with a Go evaluation over a key-value read-back; no connection left checked out.", "3/C19"),
+    "C18": ("SEQ+SCHED", "Same BFS (sub-document operations over object, raw, absent, tombstone documents, CAS tokens) against a JSON-editing specification; scheduler DFS of concurrent sub-document writers and a blind Set: outcomes equal a sequential run. Plus read-modify-write loop against delete + purge, and the sub-document pairs of the pairwise matrix.", "3/C18"),
+    "C19": ("SEQ", "Queries world: 21 write operations over two collections (incl. nil/empty bodies, tombstones with xattrs, resurrections, WithMeta), BFS depth 3/4 in memory (pre-recorded iterator) and on disk (streaming iterator); five queries per collection compared with a Go evaluation over a key-value read-back; no connection left checked out. Every query is also asked through a second handle; the world drops and re-creates a collection through either handle and (on disk) reopens.", "3/C19"),
     "C20": ("SCHED", "60 scenarios: writer, feed start-up, view update_after, due expiry timer, each racing Close / CloseAll / CloseAndDelete / DropDataStore, and pairs of shutdown calls, memory/disk x handles; every schedule within the deviation bound: no panic (any goroutine), no deadlock, no goroutine or lock left behind, follow-up calls on this and another bucket return. Plus the pairwise matrix: every unordered pair of 29 client operations on one key as two threads, from a live / tombstone / absent key, memory (1 handle) and disk (2 handles), one deviation bound lower, under the same oracle and the universal feed-order, no-gap, revision-count and no-panic/deadlock oracles.", "3/C20"),
 }
 
